@@ -145,6 +145,14 @@ impl<'a> InstanceInformation {
     }
 }
 
+#[cfg(simple_dns_verif)]
+impl InstanceInformation {
+    /// verification hook: the stored instance name, as is
+    pub fn verif_instance_name(&self) -> &str {
+        &self.instance_name
+    }
+}
+
 impl std::hash::Hash for InstanceInformation {
     fn hash<H: std::hash::Hasher>(&self, state: &mut H) {
         self.instance_name.hash(state);
